@@ -412,6 +412,12 @@ func (p *ProjectRunner) RestartProcess(name string) error {
 			log.Err(err).Msgf("failed to stop process %s", name)
 			return err
 		}
+		// the new instance must not be created before the old one is gone: it shares
+		// the process state and would see it Terminating (and refuse to launch), or
+		// run next to the old command
+		if proc.isStarted() {
+			proc.waitForCompletion()
+		}
 		time.Sleep(proc.getBackoff())
 	}
 
